@@ -29,6 +29,7 @@ ASSUMPTIONS = [
     "which must remove exactly the bad results; a deleted result simply becomes missing again",
 ]
 SHARDS = {"quick": 6, "thorough": 16}
+RULE += '; a fifth of the subset grows ask for an empty subset; every single / subset grow grows only what it was asked for'
 MIN_REACH = {
     "states_judged": {"quick": 1500, "thorough": 30000},
     "grow_events_recorded": {"quick": 1200, "thorough": 25000},
